@@ -13,6 +13,9 @@ const KINDS: [&str; 5] = ["json", "form", "raw", "stream", "mp"];
 const VARS: [&str; 3] = ["d", "m", "r"];
 
 pub struct SinkReq {
+    pub target: String,
+    pub ctype: String,
+    pub body: Vec<u8>,
     pub bytes: Vec<u8>,
     pub head_len: usize,
     pub plan: ReqPlan,
@@ -119,6 +122,9 @@ pub fn make_req(
         }
     }
     SinkReq {
+        target: target.clone(),
+        ctype: ct.clone(),
+        body: body.clone(),
         bytes,
         head_len,
         chunk_sizes: chunked,
@@ -185,6 +191,33 @@ pub fn gen_random(seed: u64, idx: u64) -> Plan {
         if r.chance(2, 3) {
             c.c2s = gen_wire(&mut r, true);
             c.s2c = gen_wire(&mut r, false);
+        }
+        if r.chance(1, 7) {
+            // the same limits over HTTP/2 DATA frames
+            c.kind = ConnKind::H2;
+            let n = r.usize_in(1, 4);
+            for j in 0..n {
+                let kind = *r.pick(&KINDS);
+                let var = *r.pick(&VARS);
+                let lim = effective_limit(var, default, rt);
+                let len = pick_len(&mut r, lim);
+                let sr = make_req(&mut r, nonce, kind, var, len, lim, None);
+                c.h2.push(H2Req {
+                    method: "PUT".into(),
+                    target: sr.target.clone(),
+                    headers: vec![
+                        ("x-sim".into(), Blob(format!("{};0;0;0;0", nonce).into_bytes())),
+                        ("content-type".into(), Blob(sr.ctype.clone().into_bytes())),
+                    ],
+                    body: Blob(sr.body.clone()),
+                    delay_ms: r.range(0, 20),
+                    req: j,
+                });
+                c.reqs.push(sr.plan);
+                nonce += 1;
+            }
+            conns.push(c);
+            continue;
         }
         let nreq = r.usize_in(1, 3);
         let pipelined = nreq > 1 && r.chance(1, 3);
@@ -283,6 +316,7 @@ impl Scenario for C11 {
             "one_over_limit_refused",
             "follower_after_oversize_checked",
             "midbody_disconnect",
+            "h2_body_limit_checked",
         ]
     }
 
@@ -434,7 +468,11 @@ pub fn check_c11(
                     ),
                 });
             }
-            let fully_sent = obs.sent_seq.get(k).copied().flatten().is_some();
+            let h2 = cp.kind == ConnKind::H2;
+            if h2 {
+                probes.push("h2_body_limit_checked");
+            }
+            let fully_sent = h2 || obs.sent_seq.get(k).copied().flatten().is_some();
             if !fully_sent && entered && !*streaming {
                 v.push(Violation {
                     rule: "c11.incomplete_body_delivered".into(),
@@ -465,7 +503,7 @@ pub fn check_c11(
                     // After an oversize (or otherwise refused) request the
                     // server may close the connection; later pipelined
                     // requests then go unanswered.
-                    if prior_oversize || truncated_at(obs).is_some() || pipelined_follower(obs, k) || !owed_answer(out, cp, obs, k) {
+                    if !h2 && (prior_oversize || truncated_at(obs).is_some() || pipelined_follower(obs, k) || !owed_answer(out, cp, obs, k)) {
                         continue;
                     }
                     v.push(Violation {
